@@ -7,6 +7,7 @@ import (
 	"encoding/json"
 	"encoding/xml"
 	"fmt"
+	"io"
 	"os"
 	"sort"
 	"strings"
@@ -21,6 +22,7 @@ import (
 	"verif/harness/s3x"
 
 	"github.com/anishathalye/porcupine"
+	"github.com/johannesboyne/gofakes3"
 	"pgregory.net/rapid"
 )
 
@@ -156,6 +158,42 @@ func (r *c07Runner) exec(client, seq int, op c07Op, rqHook func(*s3x.Req), o s3x
 		rq = &s3x.Req{Method: "GET", Path: "/bk0/mp", Query: s3x.Q("uploadId", r.upID)}
 	case "luploads":
 		rq = &s3x.Req{Method: "GET", Path: "/bk0", Query: s3x.Q("uploads", s3x.Bare)}
+	case "apiread":
+		// the read entry points of the Go Backend API, called directly (an embedding program, or a
+		// wrapping backend, does): plain and by version with the empty ID that means "current"
+		ev.Call = r.now()
+		done := make(chan struct{})
+		go func() {
+			defer close(done)
+			defer func() { recover() }()
+			be := r.st.Backend
+			if o, err := be.GetObject("bk0", key, nil); err == nil && o.Contents != nil {
+				io.Copy(io.Discard, o.Contents)
+				o.Contents.Close()
+			}
+			if o, err := be.HeadObject("bk0", key); err == nil && o.Contents != nil {
+				o.Contents.Close()
+			}
+			if vb, ok := be.(gofakes3.VersionedBackend); ok {
+				if o, err := vb.GetObjectVersion("bk0", key, "", nil); err == nil && o.Contents != nil {
+					io.Copy(io.Discard, o.Contents)
+					o.Contents.Close()
+				}
+				if o, err := vb.HeadObjectVersion("bk0", key, ""); err == nil && o.Contents != nil {
+					o.Contents.Close()
+				}
+			}
+		}()
+		ev.Status = 200
+		select {
+		case <-done:
+		case <-time.After(30 * time.Second):
+			ev.Note, ev.Status = "timeout", -2
+			c07Wedged.Store(true)
+		}
+		ev.Ret = r.now()
+		r.record(ev)
+		return
 	case "delver-all":
 		// delete every version of the key that exists right now, by ID
 		ev.Call = r.now()
@@ -1149,7 +1187,7 @@ func c07Classify(cs c07Case, ds []disc) []disc {
 }
 
 func c07GenOp(rt *rapid.T, keys int, maxSize int) c07Op {
-	k := rapid.SampledFrom([]string{"put", "put", "put", "get", "get", "get", "head", "del", "mdel", "copy", "list"}).Draw(rt, "kind")
+	k := rapid.SampledFrom([]string{"put", "put", "put", "get", "get", "get", "head", "del", "mdel", "copy", "list", "apiread"}).Draw(rt, "kind")
 	op := c07Op{K: k, Key: rapid.IntRange(0, keys-1).Draw(rt, "key")}
 	switch k {
 	case "put":
@@ -1346,8 +1384,8 @@ func TestC07Race(t *testing.T) {
 				var ops []c07Op
 				for i := 0; i < 6; i++ {
 					seed = seed*6364136223846793005 + 1442695040888963407
-					kindsOf := []string{"put", "get", "head", "del", "copy", "list", "put", "mdel"}
-					op := c07Op{K: kindsOf[(seed>>33)%8], Key: int((seed >> 40) % 2), Src: int((seed >> 45) % 2), Size: int((seed >> 20) % 5000)}
+					kindsOf := []string{"put", "get", "head", "del", "copy", "list", "put", "mdel", "apiread"}
+					op := c07Op{K: kindsOf[(seed>>33)%9], Key: int((seed >> 40) % 2), Src: int((seed >> 45) % 2), Size: int((seed >> 20) % 5000)}
 					if cs.Versioned && op.K == "put" {
 						op.K = "vput"
 					}
